@@ -956,6 +956,23 @@ func (ex *Exec) fmtArg(v Val, verb byte) (string, bool) {
 			return decString(x.T.C), true
 		}
 	case SliceV:
+		if !x.Nil && x.Len > 0 {
+			if _, isStr := ex.sliceGet(x, 0).(StrV); isStr {
+				// a slice of strings prints as [a b c]
+				parts := make([]string, 0, x.Len)
+				for _, e := range ex.sliceElems(x) {
+					es, ok := ex.concreteStr(e)
+					if !ok {
+						return "", false
+					}
+					parts = append(parts, es)
+				}
+				return "[" + strings.Join(parts, " ") + "]", true
+			}
+			if _, isTerm := ex.sliceGet(x, 0).(*Term); !isTerm {
+				return "", false
+			}
+		}
 		if s, ok := ex.concreteStr(x); ok {
 			if verb == 'x' {
 				return fmt.Sprintf("%x", s), true
